@@ -307,15 +307,15 @@ Lemma step_other s t a s' :
   step s (t, a) = Some s' ->
   (forall u, u <> t -> cnt s' u = cnt s u) /\
   ((forall u, u <> t -> stk s' u = stk s u) \/
-   ((forall u, u <> t -> stk s' u = notify_stack (stk s u)) /\ (forall v, cnt s' v = 0))).
+   ((forall u, u <> t -> stk s' u = notify_stack (stk s u)) /\ cnt s' t = 0)).
 Proof.
   intros H. unfold step, stepo, ex_check in H. break_step H.
   all: cbn in H; injection H as <-.
   all: split; [intros u Hu; autorewrite with st; apply Nat.eqb_neq in Hu; rewrite ?Hu; reflexivity|].
   all: try (left; intros u Hu; autorewrite with st; apply Nat.eqb_neq in Hu; rewrite ?Hu; reflexivity).
-  right. apply andb_true_iff in E3. destruct E3 as [_ E3]. rewrite acq_empty_spec in E3. split.
+  right. split.
   - intros u Hu. autorewrite with st. apply Nat.eqb_neq in Hu. rewrite Hu. reflexivity.
-  - intros v. rewrite cnt_notify_all. apply E3.
+  - autorewrite with st. apply Nat.eqb_eq. assumption.
 Qed.
 
 Lemma no_spurious_release_lemma s t a s' u :
@@ -474,14 +474,21 @@ Proof.
   - rewrite bottom_sh_cons by discriminate. apply bodies_bottom_sh; auto. discriminate.
 Qed.
 
+(* without any guard: an un-notified waiter still has a conflicting holder (some other thread holds shared) *)
+Definition InvW (s : state) : Prop :=
+  forall t r rest, stk s t = ExWait r false :: rest -> exists u, u <> t /\ bottom_sh (stk s u) = true.
+
+(* under the guard: a blocking exclusive request is made only by a thread that holds nothing or holds exclusively,
+   hence a waiter holds nothing *)
 Record InvG (s : state) : Prop := {
   g_req : forall t r rest, stk s t = ExReq true r :: rest -> cnt s t = 0 \/ has_ex rest = true;
-  g_wait : forall t r n rest, stk s t = ExWait r n :: rest -> cnt s t = 0;
-  g_conf : forall t r rest, stk s t = ExWait r false :: rest -> exists u, u <> t /\ bottom_sh (stk s u) = true
+  g_wait : forall t r n rest, stk s t = ExWait r n :: rest -> cnt s t = 0
 }.
 
 Lemma invg_init : InvG init.
 Proof. constructor; intros *; rewrite stk_init; discriminate. Qed.
+Lemma invw_init : InvW init.
+Proof. intros t r rest. rewrite stk_init. discriminate. Qed.
 
 Lemma acq_nonempty s : acq_empty s = false -> exists u, cnt s u > 0.
 Proof.
@@ -584,34 +591,35 @@ Qed.
 
 Lemma last_sh_exit s t a s' :
   step s (t, a) = Some s' -> stk s t = [ShExit] -> cnt s t = 1 ->
-  (forall u, u <> t -> stk s' u = notify_stack (stk s u)) \/
-  (free_for s t = true /\ exists u', u' <> t /\ cnt s u' > 0).
+  forall u, u <> t -> stk s' u = notify_stack (stk s u).
 Proof.
   intros H E C. unfold step, stepo in H. destruct a; [rewrite E in H; cbn in H; rewrite andb_false_r in H; discriminate|].
-  rewrite E in H. destruct (free_for s t) eqn:F; [|discriminate]. rewrite C in H. cbn [Nat.sub Nat.eqb andb] in H.
-  destruct (acq_empty (set_cnt (set_stk s t []) t 0)) eqn:A; cbn in H; injection H as <-.
-  - left. intros u Hu. autorewrite with st. apply Nat.eqb_neq in Hu. rewrite Hu. reflexivity.
-  - right. split; [reflexivity|]. apply acq_nonempty in A. destruct A as [u Hu]. rewrite cnt_set_cnt, cnt_set_stk in Hu.
-    destruct (Nat.eqb_spec u t); [lia|]. exists u. auto.
+  rewrite E in H. destruct (free_for s t) eqn:F; [|discriminate]. rewrite C in H. cbn [Nat.sub Nat.eqb] in H.
+  cbn in H. injection H as <-. intros u Hu. autorewrite with st. apply Nat.eqb_neq in Hu. rewrite Hu. reflexivity.
 Qed.
 
 Lemma step_invg s l s' : Inv s -> InvG s -> g_label s l = true -> step s l = Some s' -> InvG s'.
 Proof.
-  intros I G GL H. destruct (step_invg_req_wait _ _ _ I G GL H) as [Gr Gw]. constructor; [exact Gr|exact Gw|].
-  destruct l as [t a]. intros t0 r rest W. destruct (Nat.eq_dec t0 t) as [->|N].
+  intros I G GL H. destruct (step_invg_req_wait _ _ _ I G GL H) as [Gr Gw]. constructor; [exact Gr|exact Gw].
+Qed.
+
+Lemma step_invw s l s' : Inv s -> InvW s -> step s l = Some s' -> InvW s'.
+Proof.
+  intros I G H. destruct l as [t a]. intros t0 r rest W. destruct (Nat.eq_dec t0 t) as [->|N].
   - destruct (new_waiter _ _ _ _ _ _ I H W) as [O [OH Hs]]. apply others_hold_spec in OH. destruct OH as [u [Hu Hc]].
     exists u. split; [exact Hu|]. rewrite (Hs u Hu). apply holder_bottom_sh; auto.
     destruct O as [O|O]; rewrite O; congruence.
   - destruct (other_waiter _ _ _ _ _ _ _ H N W) as [W0 Hs].
-    destruct (g_conf _ G _ _ _ W0) as [u [Hu Hb]].
+    destruct (G _ _ _ W0) as [u [Hu Hb]].
     destruct (bottom_sh_step _ _ _ _ _ H Hb) as [Hb'|[-> E]].
     + exists u. auto.
     + assert (C : cnt s t = 1) by (rewrite (i_cnt _ I), E; reflexivity).
-      destruct (last_sh_exit _ _ _ _ H E C) as [Hn|[F [u' [Hu' Hc']]]].
-      * rewrite (Hn t0 N), W0 in W. discriminate W.
-      * exists u'. assert (cnt s t0 = 0) by (eapply (g_wait _ G); eauto).
-        split; [intros ->; lia|]. rewrite (Hs u' Hu'). apply holder_bottom_sh; auto.
-        apply free_for_spec in F. destruct F as [F|F]; rewrite F; congruence.
+      pose proof (last_sh_exit _ _ _ _ H E C t0 N) as Hn. rewrite Hn, W0 in W. discriminate W.
+Qed.
+
+Lemma reachable_invw s : reachable s -> InvW s.
+Proof.
+  induction 1 as [|s l s' R IH H]; [apply invw_init|]. eapply step_invw; eauto. apply reachable_inv. exact R.
 Qed.
 
 Lemma reachable_g_invs s : reachable_g s -> Inv s /\ InvG s.
@@ -621,11 +629,12 @@ Proof.
   - split; [eapply step_inv; eauto|eapply step_invg; eauto].
 Qed.
 
+(* no guard any more: holds in every reachable state *)
 Lemma no_lost_wakeup_lemma s t r n rest :
-  reachable_g s -> stk s t = ExWait r n :: rest -> others_hold s t = false -> n = true.
+  reachable s -> stk s t = ExWait r n :: rest -> others_hold s t = false -> n = true.
 Proof.
-  intros R E O. destruct (reachable_g_invs _ R) as [I G]. destruct n; [reflexivity|].
-  destruct (g_conf _ G _ _ _ E) as [u [Hu Hb]]. apply bottom_sh_counted in Hb. rewrite <- (i_cnt _ I) in Hb.
+  intros R E O. pose proof (reachable_inv _ R) as I. destruct n; [reflexivity|].
+  destruct (reachable_invw _ R _ _ _ E) as [u [Hu Hb]]. apply bottom_sh_counted in Hb. rewrite <- (i_cnt _ I) in Hb.
   rewrite others_hold_false in O. rewrite (O u Hu) in Hb. lia.
 Qed.
 
@@ -687,32 +696,10 @@ Proof.
     - unfold free_for in F. rewrite O in F. discriminate.
     - congruence.
     - exact E. }
-  destruct (W t Nt) as [r [rest E]]. destruct (g_conf _ G _ _ _ E) as [u [_ Hb]].
+  destruct (W t Nt) as [r [rest E]]. destruct (reachable_invw _ (reachable_g_reachable _ R) _ _ _ E) as [u [_ Hb]].
   assert (Nu : stk s u <> []) by (intros Z; rewrite Z in Hb; discriminate).
   destruct (W u Nu) as [r' [rest' E']]. apply bottom_sh_counted in Hb. rewrite <- (i_cnt _ I) in Hb.
   rewrite (g_wait _ G _ _ _ _ E') in Hb. lia.
-Qed.
-
-(* ---- a waiter that itself holds the lock is never notified: the defect in general form *)
-Lemma waiting_holder_stays s t r rest l s' :
-  stk s t = ExWait r false :: rest -> cnt s t > 0 -> step s l = Some s' ->
-  stk s' t = ExWait r false :: rest /\ cnt s' t > 0.
-Proof.
-  intros E C H. destruct l as [u a]. destruct (Nat.eq_dec u t) as [->|N].
-  - exfalso. unfold step, stepo in H. rewrite E in H. destruct a as [f|]; cbn in H; rewrite ?andb_false_r in H; discriminate H.
-  - destruct (step_other _ _ _ _ H) as [Hc [Hs|[_ Hz]]].
-    + rewrite (Hc t), (Hs t) by congruence. auto.
-    + specialize (Hz t). rewrite (Hc t) in Hz by congruence. lia.
-Qed.
-
-Lemma waiting_holder_forever s t r rest ls s' :
-  stk s t = ExWait r false :: rest -> cnt s t > 0 -> run s ls = Some s' ->
-  stk s' t = ExWait r false :: rest /\ cnt s' t > 0.
-Proof.
-  revert s. induction ls as [|l tl IH]; intros s E C H; cbn in H.
-  - injection H as <-. auto.
-  - destruct (step s l) as [s1|] eqn:S; [|discriminate].
-    destruct (waiting_holder_stays _ _ _ _ _ _ E C S) as [E1 C1]. eapply IH; eauto.
 Qed.
 
 Lemma run_reachable s ls s' : reachable s -> run s ls = Some s' -> reachable s'.
